@@ -380,6 +380,13 @@ func (c *Ctx) storeRoot(addr ssa.Value) (kind string, nt *types.Named, desc stri
 			continue
 		case *ssa.UnOp:
 			if x.Op == token.MUL {
+				// a load of a local cell that holds a pointer (captured or spilled parameter): follow the stored pointer
+				if al, ok := x.X.(*ssa.Alloc); ok {
+					if sts := storesTo(al); len(sts) == 1 {
+						v = sts[0].Val
+						continue
+					}
+				}
 				v = x.X
 				continue
 			}
